@@ -12,6 +12,7 @@ import hashlib
 import hmac as pyhmac
 import json
 import os
+import re
 import sys
 import types
 
@@ -133,11 +134,20 @@ class Recording(object):
 
     def __init__(self):
         self.hmac = {}
+        self.hash = {}
 
     def __enter__(self):
         import tlslite.utils.rsakey as rk
         self.rk = rk
         self.orig = rk.secureHMAC
+        self.orig_hash = rk.secureHash
+
+        def rech(data, alg):
+            r = self.orig_hash(data, alg)
+            if alg == 'sha256':
+                self.hash[bytes(data)] = bytes(r)
+            return r
+        rk.secureHash = rech
 
         def rec(k, b, alg):
             r = self.orig(k, b, alg)
@@ -149,6 +159,7 @@ class Recording(object):
 
     def __exit__(self, *a):
         self.rk.secureHMAC = self.orig
+        self.rk.secureHash = self.orig_hash
 
 
 def run_decrypt(key, ct, forced_em=None):
@@ -156,6 +167,8 @@ def run_decrypt(key, ct, forced_em=None):
     operation is made to return (the key object is the harness's own instance)."""
     raw = {}
     orig = type(key)._rawPrivateKeyOp
+    kh = key.__dict__.get('_key_hash', 'MISSING')
+    cache_before = None if (kh is None or isinstance(kh, str)) else bytes(kh)
 
     def raw_op(m):
         r = orig(key, m) if forced_em is None else int.from_bytes(forced_em, 'big')
@@ -172,7 +185,11 @@ def run_decrypt(key, ct, forced_em=None):
     finally:
         del key._rawPrivateKeyOp
     res['hmac'] = rec.hmac
+    res['hash'] = rec.hash
     res['raw'] = raw
+    res['cache_before'] = cache_before
+    kh = key.__dict__.get('_key_hash', None)
+    res['cache_after'] = None if kh is None else bytes(kh)
     return res
 
 
@@ -185,6 +202,7 @@ def nz(rng, m):
 
 
 def pkcs(rng, k, msg):
+    assert 0 <= len(msg) <= k - 11, 'message of %d bytes does not fit a %d-byte modulus' % (len(msg), k)
     return b'\x00\x02' + nz(rng, k - 3 - len(msg)) + b'\x00' + msg
 
 
@@ -244,7 +262,7 @@ def public_invalid(rng, k, n):
 
 def jcase(c):
     return {k: (v.hex() if isinstance(v, (bytes, bytearray)) else v) for k, v in c.items()
-            if k not in ('impl',)}
+            if k not in ('impl', 'keyobj')}
 
 
 # --------------------------------------------------------------------------- Coq literals
@@ -277,10 +295,25 @@ def res_lit(res):
 def decrypt_lit(key, ct, res):
     n, d = int(key.n), int(key.d)
     k = kbytes(n)
-    ht = tbl([(d.to_bytes(k, 'big'), bytes(key._key_hash))]) if getattr(key, '_key_hash', None) else '[]'
+    # SHA-256 oracle table: what the run asked for, plus the one value the specification needs (computed here)
+    hts = dict(res.get('hash', {}))
+    hts[d.to_bytes(k, 'big')] = hashlib.sha256(d.to_bytes(k, 'big')).digest()
+    ht = tbl(sorted(hts.items()))
     rt = '[' + ';'.join('(%s,%s)' % (hexlit(a), hexlit(b)) for a, b in res['raw'].items()) + ']'
     impl, code = res_lit(res)
-    return '(%s, %s, %s, %s, %s, %s, %s, %d)' % (hexlit(n), hexlit(d), blit(ct), ht, hmac_tbl(res['hmac']), rt, impl, code)
+    return '(%s, %s, %s, %s, %s, %s, %s, %s, %d)' % (hexlit(n), hexlit(d), vlib.optlit(res.get('cache_before'), blit), blit(ct),
+                                                     ht, hmac_tbl(res['hmac']), rt, impl, code)
+
+
+def robust_bad_indices(*a, **kw):
+    """vlib.coq_bad_indices, but a coqc that was killed from outside or ran into the wall-clock limit (machine load)
+    is retried once with a longer limit instead of being reported"""
+    r, errs = vlib.coq_bad_indices(*a, **kw)
+    if errs and all(re.search(r'rc=(-9|137|124|-15|143)\b', e) for e in errs):
+        kw = dict(kw)
+        kw['timeout'] = 3 * kw.get('timeout', 900)
+        r, errs = vlib.coq_bad_indices(*a, **kw)
+    return r, errs
 
 
 PREAMBLE = '''
@@ -288,13 +321,15 @@ From TV Require Import Gen.ConstantTime.
 Definition hm2 (t : list (list Z * list Z)) (k m : list Z) : list Z := table_lookup t (zlen k :: k ++ m).
 Fixpoint raw_lookup (t : list (Z * Z)) (q : Z) : Z :=
   match t with [] => -1 | (a, b) :: t' => if a =? q then b else raw_lookup t' q end.
-Definition CaseT := (Z * Z * list Z * list (list Z * list Z) * list (list Z * list Z) * list (Z * Z)
+Definition CaseT := (Z * Z * option (list Z) * list Z * list (list Z * list Z) * list (list Z * list Z) * list (Z * Z)
                      * option (option (list Z)) * Z)%type.
+(* the generated decrypt, given the cached _key_hash the object carried before the call *)
 Definition chk_model (c : CaseT) : bool :=
-  let '(n, d, enc, ht, mt, rt, impl, code) := c in
-  res_matches opt_list_eqb (decrypt (table_lookup ht) (hm2 mt) (raw_lookup rt) true n d "rsa"%string enc) impl code.
+  let '(n, d, cache, enc, ht, mt, rt, impl, code) := c in
+  res_matches opt_list_eqb (decrypt (table_lookup ht) (hm2 mt) (raw_lookup rt) true n d "rsa"%string cache enc) impl code.
+(* the specification does not know any cache: key hash = SHA-256(d) *)
 Definition chk_spec (c : CaseT) : bool :=
-  let '(n, d, enc, ht, mt, rt, impl, code) := c in
+  let '(n, d, cache, enc, ht, mt, rt, impl, code) := c in
   match impl with
   | Some r => opt_list_eqb (spec_decrypt (table_lookup ht) (hm2 mt) (raw_lookup rt) n d enc) r
   | None => false
@@ -365,9 +400,13 @@ def gen_forced_groups(ctx, quick):
     return groups
 
 
+def key_of(c):
+    return c['keyobj'] if c.get('keyobj') is not None else get_key(c['key'])
+
+
 def check_decrypt_oracle(ctx, case, res, res2):
     """The property itself on one implementation run.  Returns True if a violation was reported."""
-    key = get_key(case['key'])
+    key = key_of(case)
     n, d = int(key.n), int(key.d)
     cls = case['cls']
     em = case['em']
@@ -525,6 +564,149 @@ def helper_cases(ctx, quick):
     return lits, meta
 
 
+# --------------------------------------------------------------------------- every way a key object comes into existence
+def der_len(n):
+    if n < 128:
+        return bytes([n])
+    b = n.to_bytes((n.bit_length() + 7) // 8, 'big')
+    return bytes([0x80 | len(b)]) + b
+
+
+def der_int(x):
+    b = x.to_bytes(x.bit_length() // 8 + 1, 'big')
+    return b'\x02' + der_len(len(b)) + b
+
+
+def pem_of(ints, pkcs8):
+    import base64
+    body = b''.join(der_int(int(x)) for x in [0] + list(ints))
+    der = b'\x30' + der_len(len(body)) + body
+    label = 'RSA PRIVATE KEY'
+    if pkcs8:
+        alg = bytes.fromhex('300d06092a864886f70d0101010500')
+        body = der_int(0) + alg + b'\x04' + der_len(len(der)) + der
+        der = b'\x30' + der_len(len(body)) + body
+        label = 'PRIVATE KEY'
+    b64 = base64.b64encode(der).decode()
+    return '-----BEGIN %s-----\n%s\n-----END %s-----\n' % (
+        label, '\n'.join(b64[i:i + 64] for i in range(0, len(b64), 64)), label)
+
+
+def construction_paths(ctx, quick):
+    """(path name, thunk -> key object).  The integers of the fixed-prime keys are used wherever the path takes
+    integers; generate()/generateRSAKey() draw their own (deterministically, through loop.DetRandom)."""
+    import copy
+    import loop
+    from tlslite.utils.python_rsakey import Python_RSAKey
+    from tlslite.utils import keyfactory
+    out = []
+    for name in ([512, 1096] if quick else [96, 512, 1096, 1104, 2048]):
+        src = get_key(name)
+        I = dict(n=int(src.n), e=int(src.e), d=int(src.d), p=int(src.p), q=int(src.q), dP=int(src.dP), dQ=int(src.dQ),
+                 qInv=int(src.qInv))
+        ints = [I[x] for x in ('n', 'e', 'd', 'p', 'q', 'dP', 'dQ', 'qInv')]
+
+        def empty_then_assign(I=I):
+            k = Python_RSAKey()
+            for a, v in I.items():
+                setattr(k, a, v)
+            return k
+
+        def used(f, I=I):
+            k = Python_RSAKey(**I)
+            f(k)
+            return k
+        tag = '%s' % name
+        out += [
+            ('integers-full/' + tag, lambda I=I: Python_RSAKey(**I)),
+            ('integers-derive-crt/' + tag, lambda I=I: Python_RSAKey(I['n'], I['e'], I['d'], I['p'], I['q'])),
+            ('integers-derive-d/' + tag, lambda I=I: Python_RSAKey(I['n'], I['e'], 0, I['p'], I['q'])),
+            ('empty-then-assign/' + tag, empty_then_assign),
+            ('parsePEMKey-pkcs1/' + tag, lambda ints=ints: keyfactory.parsePEMKey(pem_of(ints, False), private=True,
+                                                                                 implementations=['python'])),
+            ('parsePEMKey-pkcs8/' + tag, lambda ints=ints: keyfactory.parsePEMKey(pem_of(ints, True), private=True,
+                                                                                 implementations=['python'])),
+            ('parsePrivateKey-pkcs8/' + tag, lambda ints=ints: keyfactory.parsePrivateKey(pem_of(ints, True))),
+            ('Python_RSAKey.parsePEM/' + tag, lambda ints=ints: Python_RSAKey.parsePEM(pem_of(ints, False))),
+            ('copy.copy-fresh/' + tag, lambda I=I: copy.copy(Python_RSAKey(**I))),
+            ('copy.copy-used/' + tag, lambda I=I: copy.copy(used(lambda k: k.decrypt(bytearray(kbytes(I['n'])))))),
+            ('after-encrypt/' + tag, lambda I=I: used(lambda k: k.encrypt(bytearray(b'x')))),
+            ('after-hashAndSign/' + tag, lambda I=I: used(lambda k: k.hashAndSign(bytearray(b'abc')))),
+        ]
+    for bits in ([256, 512] if quick else [128, 256, 512, 768, 1024]):
+        seed = ctx.rng.randrange(1, 2 ** 31)
+
+        def gen(f, bits=bits, seed=seed):
+            det = loop.DetRandom(seed).install()
+            try:
+                return f(bits)
+            finally:
+                det.uninstall()
+        out.append(('generate/%d' % bits, lambda gen=gen: gen(Python_RSAKey.generate)))
+        out.append(('generateRSAKey/%d' % bits,
+                    lambda gen=gen: gen(lambda b: keyfactory.generateRSAKey(b, implementations=['python']))))
+    out.append(('parsePEMKey-tests-serverX509Key', lambda: get_key_fresh_pem()))
+    return out
+
+
+def get_key_fresh_pem():
+    from tlslite.utils.keyfactory import parsePEMKey
+    with open(os.path.join(vlib.REPO, 'tests', 'serverX509Key.pem')) as f:
+        return parsePEMKey(f.read(), private=True, implementations=['python'])
+
+
+def construction_stage(ctx, quick):
+    """'same integers => same decrypt() on every ciphertext' and '_key_hash is missing/empty or SHA-256(d)', on every
+    construction path.  Returns (found, cases, impls) -- the cases also go through the Coq model and spec."""
+    found = False
+    cases, impls = [], []
+    rng = ctx.rng
+    for path, thunk in construction_paths(ctx, quick):
+        try:
+            key = thunk()
+        except Exception as e:  # noqa
+            ctx.log('construction path %s not available: %s: %s' % (path, type(e).__name__, str(e)[:120]))
+            ctx.count('decrypt-per-construction-path', 1, [(path, 'unavailable')])
+            continue
+        n, d, k = int(key.n), int(key.d), kbytes(key.n)
+        want_hash = hashlib.sha256(d.to_bytes(k, 'big')).digest()
+        ems = [('valid', pkcs(rng, k, bytes(rng.randrange(256) for _ in range(min(20, k - 11))))),
+               ('no-separator', b'\x00\x02' + nz(rng, k - 2)),
+               ('second-byte-not-2', b'\x00\x01' + nz(rng, k - 3) + b'\x00'),
+               ('zero-in-first-8-ps', b'\x00\x02' + nz(rng, 3) + b'\x00' + nz(rng, k - 7) + b'\x00')]
+        todo = [(cls, enc_em(key, em), em) for cls, em in ems]
+        while True:
+            ct = bytes(rng.randrange(256) for _ in range(k))
+            if int.from_bytes(ct, 'big') < n:
+                todo.append(('ct-random', ct, None))
+                break
+        p0 = path.split('/')[0]
+        for cls, ct, em in todo:
+            c = dict(key=path, keyobj=key, cls='via:%s:%s' % (p0, cls), ct=ct, forced=None, em=em, path=path,
+                     ints={a: '%x' % int(getattr(key, a)) for a in ('n', 'e', 'd', 'p', 'q', 'dP', 'dQ', 'qInv')})
+            r1 = run_decrypt(key, ct)
+            r2 = run_decrypt(key, ct)
+            cases.append(c)
+            impls.append(r1)
+            ctx.count('decrypt-per-construction-path', 1, [(path, cls)])
+            cb = r1['cache_before']
+            if cb not in (None, b'', want_hash) or r1['cache_after'] != want_hash:
+                found = True
+                which = 'before' if cb not in (None, b'', want_hash) else 'after'
+                val = cb if which == 'before' else r1['cache_after']
+                ctx.violation('key-hash-invariant:%s' % p0,
+                              'a key object obtained through %s carries _key_hash = %s %s decrypt(); the invariant is '
+                              '"missing, empty or SHA-256(I2OSP(d,k))" = %s%s: the synthetic message for invalid padding is not '
+                              'keyed with the private exponent' % (
+                                  path, None if val is None else val.hex(), which, want_hash.hex(),
+                                  ' (it is SHA-256 of the empty string, a public constant)'
+                                  if val == hashlib.sha256(b'').digest() else ''),
+                              dict(kind='construct', path=path, case=jcase(c)))
+            if check_decrypt_oracle(ctx, c, r1, r2):
+                found = True
+    return found, cases, impls
+
+
 # --------------------------------------------------------------------------- private operation (translation validation)
 def privop_cases(ctx, quick):
     """real Python_RSAKey._rawPrivateKeyOp with recorded oracles, cold (first pass) and warm"""
@@ -589,12 +771,15 @@ def conc_stage(ctx, quick):
     for name in ([512, 'pem'] if quick else [96, 512, 1096, 'pem', 2048]):
         key = get_key(name)
         n, d, k = int(key.n), int(key.d), kbytes(key.n)
-        msgs = {'A': b'thread-A ' + bytes(rng.randrange(256) for _ in range(8)),
-                'B': b'thread-B ' + bytes(rng.randrange(256) for _ in range(20)),
-                'C': b'C' + bytes(rng.randrange(256) for _ in range(3))}
+        room = k - 11                    # longest message the key can carry (1 byte for the 96-bit key)
+        if room < 1:
+            continue
+        msgs = {'A': (b'thread-A ' + bytes(rng.randrange(256) for _ in range(8)))[:room],
+                'B': (b'thread-B ' + bytes(rng.randrange(256) for _ in range(20)))[:room],
+                'C': (b'C' + bytes(rng.randrange(256) for _ in range(3)))[:room]}
         cts = {t: enc_em(key, pkcs(rng, k, m)) for t, m in msgs.items()}
         bad_em = b'\x00\x02' + nz(rng, k - 2)                       # no separator
-        probe_valid = enc_em(key, pkcs(rng, k, b'probe ' + bytes(rng.randrange(256) for _ in range(10))))
+        probe_valid = enc_em(key, pkcs(rng, k, (b'probe ' + bytes(rng.randrange(256) for _ in range(10)))[:room]))
         probe_msg = o_unpad(pow(int.from_bytes(probe_valid, 'big'), d, n).to_bytes(k, 'big'))
         probe_invalid = enc_em(key, bad_em)
         probes = [probe_valid, probe_invalid]
@@ -764,16 +949,20 @@ def run(ctx):
                              None if c['r'] is None else len(c['r']),
                              'the decrypted value' if want == c['r'] else 'the random premaster'), rep)
     ctx.log('kex vs property oracle: %d cases' % len(kcases))
+    # every way a key object comes into existence: same integers => same decrypt(); _key_hash invariant
+    cfound, ccases, cimpls = construction_stage(ctx, quick)
+    found = found or cfound
+    ctx.log('construction paths: %d decrypts' % len(ccases))
     # determinism of decrypt when one key object is shared by threads (forced schedules)
     if conc_stage(ctx, quick):
         found = True
     ctx.log('concurrency stage done')
     # ---------------- generated models and Coq spec on the same cases
     if res['model_ok'] and tie_broken is None:
-        allc = cases + forced_cases
-        alli = impls + forced_impls
-        lits = [decrypt_lit(get_key(c['key']), c['ct'], i) for c, i in zip(allc, alli)]
-        (bad_model, bad_spec), errs = vlib.coq_bad_indices(
+        allc = cases + forced_cases + ccases
+        alli = impls + forced_impls + cimpls
+        lits = [decrypt_lit(key_of(c), c['ct'], i) for c, i in zip(allc, alli)]
+        (bad_model, bad_spec), errs = robust_bad_indices(
             'C11', IMPORTS, 'CaseT', ['chk_model', 'chk_spec'], lits,
             shard=max(8, (len(lits) + 15) // 16) if quick else 60, preamble=PREAMBLE,
             timeout=900 if quick else 2700)
@@ -791,7 +980,7 @@ def run(ctx):
                           dict(kind='decrypt', case=jcase(allc[i]),
                                impl=None if alli[i]['out'] is None else alli[i]['out'].hex()))
         klits = [kex_lit(c, i) for c, i in zip(kcases, kimpls)]
-        (badk, badks), errs = vlib.coq_bad_indices('C11k', IMPORTS, 'KexT', ['chk_kex', 'chk_kex_spec'], klits,
+        (badk, badks), errs = robust_bad_indices('C11k', IMPORTS, 'KexT', ['chk_kex', 'chk_kex_spec'], klits,
                                                    shard=max(8, (len(klits) + 7) // 8), preamble=PREAMBLE)
         ctx.count('kex-model-vs-impl(vm_compute)', len(klits), [('agree', len(klits) - len(badk))])
         for e in errs:
@@ -804,14 +993,14 @@ def run(ctx):
             ctx.violation('coq-kex-spec!=impl:%s' % kcases[i]['cls'], 'Model.C11_ServerTail.kex_spec disagrees with '
                           'processClientKeyExchange (class %s)' % kcases[i]['cls'], dict(kind='kex', cls=kcases[i]['cls']))
         pl, pm = privop_cases(ctx, quick)
-        badp, errs = vlib.coq_bad_indices('C11p', IMPORTS, 'PrivT', 'chk_privop', pl, shard=6, preamble=PREAMBLE)
+        badp, errs = robust_bad_indices('C11p', IMPORTS, 'PrivT', 'chk_privop', pl, shard=6, preamble=PREAMBLE)
         ctx.count('privop-model-vs-impl(vm_compute)', len(pl), [m for m in pm])
         for e in errs:
             tie_broken = 'private-operation evaluation failed: ' + e[:400]
         for i in badp[:3]:
             tie_broken = 'generated rawPrivateKeyOp disagrees with Python_RSAKey._rawPrivateKeyOp (%s, %s)' % pm[i]
         hl, hm = helper_cases(ctx, quick)
-        badh, errs = vlib.coq_bad_indices('C11h', IMPORTS, 'bool', '(fun b : bool => b)', hl, shard=24, preamble=PREAMBLE)
+        badh, errs = robust_bad_indices('C11h', IMPORTS, 'bool', '(fun b : bool => b)', hl, shard=24, preamble=PREAMBLE)
         ctx.count('lib-helpers-model-vs-impl', len(hl), [(m[0],) for m in hm])
         for e in errs:
             tie_broken = 'helper evaluation failed: ' + e[:400]
